@@ -27,5 +27,8 @@ mod xform_resolve_late_bound_expr_kind;
 mod xform_resolve_late_bound_type_initializer;
 mod xform_toposort_declarations;
 
+#[cfg(feature = "verif")]
+pub mod verif_hooks;
+
 #[cfg(test)]
 mod test_helpers;
